@@ -107,8 +107,45 @@ func (pi *pipeInst) run(line []byte, sec, nsec int64) (res string) {
 	return "sent " + hx(out)
 }
 
+// runDeferred parses and transforms now and leaves serialization to the caller: input-stage extractions work on a batch of
+// records of one connection before any of them is serialized
+func (pi *pipeInst) runDeferred(line []byte, sec, nsec int64) (res string, rec *base.LogRecord) {
+	defer func() {
+		if r := recover(); r != nil {
+			res, rec = "panic "+panicKind(r), nil
+		}
+	}()
+	rec = pi.parser.Parse(append([]byte{}, line...), time.Unix(sec, nsec))
+	if rec == nil {
+		return "rejected", nil
+	}
+	if bsupport.RunTransforms(rec, pi.tfs) == base.DROP {
+		pi.alloc.Release(rec)
+		return "filtered", nil
+	}
+	return "", rec
+}
+
+func (pi *pipeInst) finish(rec *base.LogRecord) (res string) {
+	defer func() {
+		if r := recover(); r != nil {
+			res = "panic " + panicKind(r)
+		}
+	}()
+	defer pi.alloc.Release(rec)
+	return "sent " + hx(append([]byte{}, pi.ser.SerializeRecord(rec)...))
+}
+
 func (p *pipeComp) Impl(c Case) []string {
 	out := make([]string, len(c.Ops))
+	type pend struct {
+		idx       int
+		rec       *base.LogRecord
+		line      []byte
+		sec, nsec int64
+	}
+	var pending []pend
+	batch := false
 	var levels []string
 	var yamlSteps string
 	var sc serCfg
@@ -118,9 +155,32 @@ func (p *pipeComp) Impl(c Case) []string {
 	defer func() {
 		defs.InputLogMaxMessageBytes, defs.InputLogMaxRecordBytes, defs.InputLogMinRecordBytesToPool = oldMsg, oldRec, oldPool
 	}()
+	flushPending := func() {
+		for _, pd := range pending {
+			a := long.finish(pd.rec)
+			if !sampled {
+				if fresh, err := pipeBuild(levels, yamlSteps, sc); err == nil {
+					if b := fresh.run(pd.line, pd.sec, pd.nsec); a != b {
+						a = "ISOLATION-DIFF batched=[" + a + "] fresh=[" + b + "]"
+					}
+				}
+			}
+			out[pd.idx] = a
+		}
+		pending = pending[:0]
+	}
+	defer func() {
+		if long != nil && len(pending) > 0 {
+			flushPending()
+		}
+	}()
 	for i, o := range c.Ops {
 		switch o.Name {
 		case "parse cfg":
+			if len(pending) > 0 && long != nil {
+				flushPending()
+			}
+			batch = o.Meta == "batch"
 			defs.InputLogMaxMessageBytes, defs.InputLogMaxRecordBytes = int(o.Ints[0]), int(o.Ints[1])
 			defs.InputLogMinRecordBytesToPool = int(o.Ints[2])
 			levels = nil
@@ -132,6 +192,9 @@ func (p *pipeComp) Impl(c Case) []string {
 			sc = parseSerCfg(o.Strs)
 			out[i] = "ok"
 		case "xform load":
+			if len(pending) > 0 && long != nil {
+				flushPending()
+			}
 			yamlSteps = o.Meta
 			sampled = strings.Contains(o.Meta, "percentage:") && !onlyFullDrops(o.Meta)
 			var err error
@@ -148,6 +211,25 @@ func (p *pipeComp) Impl(c Case) []string {
 				continue
 			}
 			line := o.Bytes[0]
+			if batch {
+				a, rec := long.runDeferred(line, o.Ints[0], o.Ints[1])
+				if rec != nil {
+					pending = append(pending, pend{i, rec, line, o.Ints[0], o.Ints[1]})
+					if len(pending) >= 4 {
+						flushPending()
+					}
+					continue
+				}
+				if !sampled {
+					if fresh, err := pipeBuild(levels, yamlSteps, sc); err == nil {
+						if b := fresh.run(line, o.Ints[0], o.Ints[1]); a != b {
+							a = "ISOLATION-DIFF batched=[" + a + "] fresh=[" + b + "]"
+						}
+					}
+				}
+				out[i] = a
+				continue
+			}
 			a := long.run(line, o.Ints[0], o.Ints[1])
 			if !sampled {
 				fresh, err := pipeBuild(levels, yamlSteps, sc)
@@ -316,6 +398,9 @@ func (p *pipeComp) Generate(rng *rand.Rand, n int, emit func(Case)) {
 					[]string{"alpha", "bravo", "delta"}[rng.Intn(3)]+" "+pad)
 				ops = append(ops, Op{Name: "pipe run", Ints: []int64{1000 + int64(rng.Intn(1000)), int64(rng.Intn(1000000000))}, Bytes: [][]byte{line}})
 			}
+		}
+		if i%3 == 1 {
+			ops[0].Meta = "batch" // transforms run on four records before any of them is serialized
 		}
 		meta := "sentinel"
 		if strings.Contains(stepsYAML(steps), "type: drop") {
